@@ -138,6 +138,10 @@ class Gen:
         self.neid = 0
         self.noid = 0
         self.twins: list[dict] = []       # prefixed expressions to repeat
+        # in some templates every fallback reads ``error`` (type, value,
+        # line, column): each handled failure's position is then checked
+        self.errinfo_all = bool(self.o.get("errinfo_all")) and \
+            self.ch.coin(self.o["errinfo_all"])
         self.nmacro = 0
         self.nslot = 0
         self.nmark = 0
@@ -500,6 +504,8 @@ class Gen:
                 parts.append(["expr", self.probe("interp")])
         if has_on_error:
             t = ch.choose(6)
+            if self.errinfo_all and ch.coin(0.8):
+                t = 5
             if t < 3:
                 fe = {"k": "string", "parts": [["lit", "err%d" % self.nsite]]}
                 mode = ""
